@@ -9,6 +9,13 @@
 // apply (other package, or neither listed nor in range). The vulnerability must survive the
 // filter exactly when the applying entry's severity is the high one.
 //
+// Side by side (npm, K2): the manifest requires a1 and b1, which require the package at two different
+// ladder versions (every ordered pair), so the vulnerability has two subgraphs at different
+// versions; the record has one entry per installed version (plus optionally one that applies to
+// neither), per-entry severities in every assignment, every entry order, three ways of writing the
+// entries. HEAD's matchSeverity takes the maximum over the subgraphs' applying entries, so the
+// vulnerability must survive exactly when SOME installed version's applying entry is the high one.
+//
 // Don't-care: records where zero or several entries apply (not generated), top-level severities,
 // unknown / unparsable severity vectors.
 package main
@@ -59,6 +66,9 @@ type kEnv struct {
 	name string // registry name of the package (record name, queried name)
 	dir  string
 	path string
+	// installed are the versions of the package the manifest installs: {v}, or for the
+	// side-by-side universes {version required by direct dependency a1, version required by b1}.
+	installed []string
 }
 
 func kEcoOf(e *ecoT) string {
@@ -76,7 +86,29 @@ func newKEnv(e *ecoT, v string, dir string) (*kEnv, error) {
 	}
 	c.Pkgs = []u.Pkg{p}
 	c.Manifest = []u.Req{{Name: "d1", Req: v}}
-	env := &kEnv{eco: e, c: c, v: v, name: c.Full("d1"), dir: dir}
+	env := &kEnv{eco: e, c: c, v: v, name: c.Full("d1"), dir: dir, installed: []string{v}}
+	path, err := c.PutManifest(dir, c.ManifestBytes())
+	if err != nil {
+		return nil, err
+	}
+	env.path = path
+	return env, nil
+}
+
+// newKEnv2 builds the side-by-side universe (npm only): the manifest requires a1 and b1, a1
+// requires the package at exactly va and b1 requires it at exactly vb, so npm installs both
+// versions next to each other and the vulnerability has two subgraphs.
+func newKEnv2(e *ecoT, va, vb string, dir string) (*kEnv, error) {
+	c := &u.Case{Eco: u.NPM, Shape: "c18-phase-k-side-by-side", Opt: u.Opts{MinSeverity: kMinSeverity}}
+	p := u.Pkg{Name: "d1"}
+	for _, kv := range kVersions {
+		p.Vers = append(p.Vers, u.Ver{V: kv})
+	}
+	c.Pkgs = []u.Pkg{p,
+		{Name: "a1", Vers: []u.Ver{{V: "1.0.0", Deps: []u.Dep{{Name: "d1", Req: va}}}}},
+		{Name: "b1", Vers: []u.Ver{{V: "1.0.0", Deps: []u.Dep{{Name: "d1", Req: vb}}}}}}
+	c.Manifest = []u.Req{{Name: "a1", Req: "1.0.0"}, {Name: "b1", Req: "1.0.0"}}
+	env := &kEnv{eco: e, c: c, v: va, name: c.Full("d1"), dir: dir, installed: []string{va, vb}}
 	path, err := c.PutManifest(dir, c.ManifestBytes())
 	if err != nil {
 		return nil, err
@@ -107,7 +139,18 @@ func (env *kEnv) run(aff []osvschema.Affected) (found, kept bool, err error) {
 		return false, false, fmt.Errorf("resolve: %w", err)
 	}
 	for _, v := range res.UnfilteredVulns {
-		found = found || v.OSV.ID == kRecordID
+		if v.OSV.ID != kRecordID {
+			continue
+		}
+		// found only if the vulnerable nodes are exactly the versions the universe was built to install
+		seen := map[string]bool{}
+		for _, sg := range v.Subgraphs {
+			seen[sg.Nodes[sg.Dependency].Version.Version] = true
+		}
+		found = len(seen) == len(env.installed)
+		for _, iv := range env.installed {
+			found = found && seen[iv]
+		}
 	}
 	for _, v := range res.Vulns {
 		kept = kept || v.OSV.ID == kRecordID
@@ -124,20 +167,31 @@ func kSev(level string) []osvschema.Severity {
 
 // kExpected: the entries that apply to (eco,name)@v by the OSV evaluation; ok only if exactly
 // one does, then keep = that entry carries the high severity.
-func kExpected(eco, name, v string, aff []osvschema.Affected) (keep, ok bool) {
-	n := 0
-	for i := range aff {
-		if specAffectedOSV(eco, name, v, aff[i:i+1]) {
-			n++
-			keep = len(aff[i].Severity) == 1 && aff[i].Severity[0].Score == kHigh
+// With several installed versions: every installed version must have exactly one applying entry;
+// keep = some installed version's applying entry carries the high severity (HEAD's matchSeverity
+// takes the maximum over the subgraphs).
+func kExpected(eco, name string, installed []string, aff []osvschema.Affected) (keep, ok bool) {
+	for _, v := range installed {
+		n := 0
+		for i := range aff {
+			if specAffectedOSV(eco, name, v, aff[i:i+1]) {
+				n++
+				keep = keep || (len(aff[i].Severity) == 1 && aff[i].Severity[0].Score == kHigh)
+			}
+		}
+		if n != 1 {
+			return false, false
 		}
 	}
-	return keep, n == 1
+	return keep, true
 }
 
 func kToRCase(env *kEnv, aff []osvschema.Affected) *rCase {
 	c := fcase{phase: "K", aff: aff, qname: env.name}.toRCase(env.eco, 0)
 	c.Version = env.v
+	if len(env.installed) > 1 {
+		c.Installed = append([]string{}, env.installed...)
+	}
 	for i := range aff {
 		if len(aff[i].Severity) == 1 && aff[i].Severity[0].Score == kHigh {
 			c.Affected[i].Severity = "high"
@@ -150,7 +204,7 @@ func kToRCase(env *kEnv, aff []osvschema.Affected) *rCase {
 
 // kCheck runs one record; returns false if the case had to be skipped (harness trouble).
 func (env *kEnv) check(aff []osvschema.Affected, st *stats) {
-	keep, ok := kExpected(env.eco.osv, env.name, env.v, aff)
+	keep, ok := kExpected(env.eco.osv, env.name, env.installed, aff)
 	if !ok {
 		fmt.Fprintf(os.Stderr, "C18 harness error: phase K generated a record where not exactly one entry applies (%s@%s)\n", env.name, env.v)
 		os.Exit(3)
@@ -230,6 +284,75 @@ func runPhaseK(env *kEnv, lists [][]rEvent, st *stats) (distinct int64) {
 	return distinct
 }
 
+// runPhaseK2 enumerates the records for one side-by-side universe (a1 -> va, b1 -> vb, va != vb):
+// one entry applies to the lower version only, one to the higher version only, optionally a third
+// to neither; three ways of writing the entries; every order of the entries; the high severity on
+// the lower-version entry, on the higher-version entry, or only on the entry that applies to neither.
+func runPhaseK2(env *kEnv, st *stats) (distinct int64) {
+	e := env.eco
+	lo, hi := env.installed[0], env.installed[1]
+	if refCmp(lo, hi) > 0 {
+		lo, hi = hi, lo
+	}
+	const above = "11.0.0" // greater than every published version but itself
+	if refCmp(hi, above) >= 0 {
+		return 0
+	}
+	ent := func(versions []string, sev string, rs ...osvschema.Range) osvschema.Affected {
+		a := entry(e.osv, env.name, versions, rs...)
+		a.Severity = kSev(sev)
+		return a
+	}
+	type style struct {
+		lo, hi, none func(sev string) osvschema.Affected
+	}
+	styles := []style{
+		{ // introduced / fixed
+			func(s string) osvschema.Affected {
+				return ent(nil, s, rg("ECOSYSTEM", []rEvent{{Introduced: "0"}, {Fixed: hi}}))
+			},
+			func(s string) osvschema.Affected {
+				return ent(nil, s, rg("ECOSYSTEM", []rEvent{{Introduced: hi}, {Fixed: above}}))
+			},
+			func(s string) osvschema.Affected { return ent(nil, s, rg("ECOSYSTEM", []rEvent{{Introduced: above}})) }},
+		{ // last_affected, closer listed first
+			func(s string) osvschema.Affected {
+				return ent(nil, s, rg("SEMVER", []rEvent{{LastAffected: lo}, {Introduced: "0"}}))
+			},
+			func(s string) osvschema.Affected {
+				return ent(nil, s, rg("SEMVER", []rEvent{{LastAffected: hi}, {Introduced: hi}}))
+			},
+			func(s string) osvschema.Affected {
+				return ent([]string{above}, s, rg("GIT", []rEvent{{Introduced: "0"}}))
+			}},
+		{ // explicit lists
+			func(s string) osvschema.Affected { return ent([]string{lo}, s) },
+			func(s string) osvschema.Affected { return ent([]string{above, hi}, s) },
+			func(s string) osvschema.Affected {
+				return ent([]string{above}, s, rg("ECOSYSTEM", []rEvent{{Introduced: above}}))
+			}},
+	}
+	for _, sty := range styles {
+		two := func(sl, sh string) {
+			env.check([]osvschema.Affected{sty.lo(sl), sty.hi(sh)}, st)
+			env.check([]osvschema.Affected{sty.hi(sh), sty.lo(sl)}, st)
+			distinct += 2
+		}
+		two("high", "low")
+		two("low", "high")
+		two("low", "low")
+		two("high", "high")
+		for _, sv := range [][3]string{{"high", "low", "low"}, {"low", "high", "low"}, {"low", "low", "high"}} {
+			three := []osvschema.Affected{sty.lo(sv[0]), sty.hi(sv[1]), sty.none(sv[2])}
+			for _, pm := range perms(3) {
+				env.check([]osvschema.Affected{three[pm[0]], three[pm[1]], three[pm[2]]}, st)
+				distinct++
+			}
+		}
+	}
+	return distinct
+}
+
 func kWorkDir() string {
 	base := "/dev/shm"
 	if _, err := os.Stat(base); err != nil {
@@ -242,7 +365,13 @@ func kWorkDir() string {
 func replayK(c *rCase, eco *ecoT) int {
 	dir := kWorkDir()
 	defer os.RemoveAll(dir)
-	env, err := newKEnv(eco, c.Version, filepath.Join(dir, "replay"))
+	var env *kEnv
+	var err error
+	if len(c.Installed) == 2 {
+		env, err = newKEnv2(eco, c.Installed[0], c.Installed[1], filepath.Join(dir, "replay"))
+	} else {
+		env, err = newKEnv(eco, c.Version, filepath.Join(dir, "replay"))
+	}
 	if err != nil {
 		fmt.Fprintln(os.Stderr, "replay:", err)
 		return 3
@@ -255,7 +384,7 @@ func replayK(c *rCase, eco *ecoT) int {
 	for i := range aff {
 		aff[i].Severity = kSev(c.Affected[i].Severity)
 	}
-	keep, ok := kExpected(eco.osv, env.name, env.v, aff)
+	keep, ok := kExpected(eco.osv, env.name, env.installed, aff)
 	if !ok {
 		fmt.Fprintln(os.Stderr, "replay: not exactly one entry applies; outside phase K's domain")
 		return 3
